@@ -11,7 +11,8 @@ Streams of C12.
       inner = ret:<s>:<0|1> | write:<s|->:<hex>:<0|1>:<kind>:<cl 0|1>:<mode> | file:<kind>:<hex>
               | panic | panicafter:<s|->:<hex>
               kind = plain | tok | tparse | texec  (what text/template makes of the body)
-              mode = w | c | s | wf  (Write, io.Copy, io.WriteString, Write+Flush: all a write for the model)
+              mode = w | c | s | wf | fw | nw  (Write, io.Copy, io.WriteString, Write+Flush, Flush+Write, optional-interface
+                     assertions + CloseNotify + Push then Write: all a write for the model)
               file: the request goes to the real static file server (Content-Length, ETag …), returns (200, nil)
       out   = <commits> <status> <cl> <body> <followup>
               cl   = - absent | = equals the bytes sent | ! differs
